@@ -313,8 +313,29 @@ def check(run):
     rets = [r for r in ast.walk(d.node) if isinstance(r, ast.Return)]
     for r in rets:
         c = f"{d.key}:return:{norm(r.value)[:50]}"
+        from ..loader import FuncInfo
+
+        def reaches_kernel(fi, depth=0, seen=None):
+            """the function refers (as a call or as a value it passes on) to one of the numpy kernels, possibly through other module functions"""
+            seen = seen or set()
+            if fi.key in seen or depth > 3:
+                return False
+            seen.add(fi.key)
+            for n in ast.walk(fi.node):
+                if isinstance(n, ast.Name) and n.id in ("_apply_node_to_face_aggregation_numpy", "_apply_node_to_edge_aggregation_numpy"):
+                    return True
+                if isinstance(n, ast.Call):
+                    t = P.resolve_expr(fi.module, n.func, fi)
+                    if isinstance(t, FuncInfo) and t.module is fi.module and reaches_kernel(t, depth + 1, seen):
+                        return True
+            return False
+        tgt = P.resolve_expr(d.module, r.value.func, d) if isinstance(r.value, ast.Call) else None
         if isinstance(r.value, ast.Call) and (dotted(r.value.func) or [""])[-1] in ("_node_to_face_aggregation", "_node_to_edge_aggregation"):
             run.holds("F-PATH/unsupported-raises", c, where(d, r), "returns an aggregation result")
+        elif isinstance(tgt, FuncInfo) and reaches_kernel(tgt):
+            run.holds("F-PATH/unsupported-raises", c, where(d, r), f"returns the result of {tgt.name}, which runs a node aggregation kernel")
+        elif isinstance(tgt, FuncInfo):
+            run.incomplete("F-PATH/unsupported-raises", c, where(d, r), f"dispatcher returns {norm(r.value)[:60]}; whether {tgt.name} aggregates is not followed")
         else:
             run.violation("F-PATH/unsupported-raises", c, where(d, r), f"dispatcher returns {norm(r.value)[:60]} instead of an aggregation (numbers without reduction)")
     # result dims: rename n_node -> destination on the same grid
